@@ -119,8 +119,8 @@ func (svg *SVGImage) drawNode(dst backend.Canvas, node *svgNode, dims drawingDim
 		}
 
 		// clip
-		if cp, has := svg.definitions.clipPaths[node.clipPathID]; has {
-			svg.applyClipPath(dst, cp, node, dims)
+		if cp, has := svg.definitions.clipPaths[node.clipPathID]; has && !dims.activeRefs.has(cp) {
+			svg.applyClipPath(dst, cp, node, dims.withRef(cp))
 		}
 
 		// Handle text anchor
@@ -192,8 +192,8 @@ func (svg *SVGImage) drawNode(dst backend.Canvas, node *svgNode, dims drawingDim
 		}
 
 		// apply mask
-		if ma, has := svg.definitions.masks[node.maskID]; has {
-			svg.applyMask(dst, ma, node, dims)
+		if ma, has := svg.definitions.masks[node.maskID]; has && !dims.activeRefs.has(maskRef(node.maskID)) {
+			svg.applyMask(dst, ma, node, dims.withRef(maskRef(node.maskID)))
 		}
 
 		// do the actual painting :
@@ -252,9 +252,10 @@ func (svg *SVGImage) drawMarkers(dst backend.Canvas, vertices []vertex, node *sv
 		}
 
 		marker := markers[position]
-		if marker == nil {
+		if marker == nil || dims.activeRefs.has(marker) {
 			continue
 		}
+		dims := dims.withRef(marker)
 
 		// calculate position, scale and clipping
 		var (
@@ -530,6 +531,34 @@ type drawingDims struct {
 
 	// cached value of norm(concreteWidth, concreteHeight) / sqrt(2)
 	normalizedDiagonal Fl
+
+	// the masks, clip paths and markers being drawn,
+	// used to ignore circular references
+	activeRefs *refChain
+}
+
+// maskRef is the key of a mask in a [refChain]
+type maskRef string
+
+// refChain is a (persistent) stack of definitions being drawn
+type refChain struct {
+	key    interface{}
+	parent *refChain
+}
+
+func (rc *refChain) has(key interface{}) bool {
+	for ; rc != nil; rc = rc.parent {
+		if rc.key == key {
+			return true
+		}
+	}
+	return false
+}
+
+// withRef returns a copy of [dims] where [key] is marked as being drawn
+func (dims drawingDims) withRef(key interface{}) drawingDims {
+	dims.activeRefs = &refChain{key: key, parent: dims.activeRefs}
+	return dims
 }
 
 // update `innerDiagonal` and `normalizedDiagonal`
